@@ -430,6 +430,10 @@ def c17_oracle(full, io, b):
                             also=[v.n_of(h, "explicit_port"), v.n_of(h, "scheme")]))
             continue
         has_auth = rh is not None and rh != "~" and not rh.startswith("!")
+        if has_auth and dec(rh) == "":
+            # an empty host: either no valid host at all, or an authority made of '@' / ':' only that normalises to NOTHING while the constructor
+            # pre-computes raw_host '' (the listed F-C09 / F-C03-empty-authority family) — outside "the port written in the URL"
+            continue
         if idp in ("T", "F") and has_auth:
             exp_default = True if e_ is None else (e_ == dflt)
             if (idp == "T") != exp_default and v.n_of(h, "is_default_port") not in flagged:
@@ -449,7 +453,8 @@ def c17_oracle(full, io, b):
                         return int(t)          # the port TEXT may be any spelling int() accepts (encoded=True keeps it as written)
                     except ValueError:
                         return "?"
-                ok = (rest == "" and exp_shown is None) or (rest.startswith(":") and exp_shown is not None and _pv(rest[1:]) == exp_shown)
+                # an EMPTY port text ("h:", kept as written by encoded=True) is "no port written"
+                ok = (rest in ("", ":") and exp_shown is None) or (rest.startswith(":") and exp_shown is not None and _pv(rest[1:]) == exp_shown)
                 if not ok and v.n_of(h, "str") not in flagged:
                     out.append(fail(v, h, "str", f"str(url) = {dec(sv)!r} writes the port as {rest!r} but explicit_port = {e_}, scheme default {dflt}: expected {'no port' if exp_shown is None else ':%d' % exp_shown}",
                                     "port-shown", also=[v.n_of(h, "explicit_port"), v.n_of(h, "scheme")]))
